@@ -28,7 +28,7 @@
 (***************************************************************************)
 EXTENDS Naturals, Sequences, FiniteSets, TLC, Json, SequencesExt, FiniteSetsExt
 
-CONSTANTS NInst, Regs, OutSels, OutSelsRen, ReAdmin, Design, MaxOps
+CONSTANTS NInst, Regs, OutSels, OutSelsRen, OutSelsDose, ReAdmin, Design, MaxOps
 
 VARIABLES cfg,      \* [1..NInst -> configuration record]
           pend,     \* [1..NInst -> sequence of micro-steps still to do in the current call]
@@ -96,8 +96,12 @@ BadKinds == {"outs", "adm", "sens", "pren"}
 Idle(m) == pend[m] = <<>>
 AllIdle == \A m \in Inst : Idle(m)
 
-Ops(c) == {<<"adm", a>> : a \in {"direct", "indirect"}} \cup {<<"reg", r>> : r \in Regs}
-          \cup {<<"outs", o>> : o \in OutSels} \cup {<<"sens", b>> : b \in BOOLEAN}
+\* OutSelsDose: output selections that name a variable of the DOSE compartment, which exists only behind an indirect route:
+\* they can be chosen only then, and while one is chosen the route stays indirect (set again, it keeps the selection)
+Ops(c) == {<<"adm", a>> : a \in (IF c.outs \in OutSelsDose THEN {"indirect"} ELSE {"direct", "indirect"})}
+          \cup {<<"reg", r>> : r \in Regs}
+          \cup {<<"outs", o>> : o \in (IF c.admin = "indirect" THEN OutSels ELSE OutSels \ OutSelsDose)}
+          \cup {<<"sens", b>> : b \in BOOLEAN}
           \cup (IF c.pren = 0 THEN {<<"pren", 0>>} ELSE {}) \cup (IF c.oren = 0 /\ c.outs \in OutSelsRen THEN {<<"oren", 0>>} ELSE {})
           \cup {<<"sim", 0>>} \cup {<<"bad", k>> : k \in BadKinds}
 
